@@ -5,12 +5,15 @@ import (
 	"fmt"
 	"math"
 	"math/big"
+	"strconv"
 	"strings"
+	"sync"
 	"time"
 
 	goat "github.com/avos-io/goat"
 	"github.com/avos-io/goat/gen/goatorepo"
 	"google.golang.org/grpc"
+	"google.golang.org/grpc/metadata"
 )
 
 func init() { register("C08", runC08) }
@@ -206,6 +209,13 @@ func c08Headers(r *Run) {
 		for j := range kvs {
 			kvs[j] = &goatorepo.KeyValue{Key: keys[rng.Intn(len(keys))], Value: vals[rng.Intn(len(vals))]}
 		}
+		// the input is written down before the call: the code under check is handed the very slice and a
+		// version that rearranges it in place must not get to rewrite the question it is asked
+		inp := kvInput(kvs)
+		keysOf, valsOf := make([]string, k), make([]string, k)
+		for j := range kvs {
+			keysOf[j], valsOf[j] = kvs[j].Key, kvs[j].Value
+		}
 		t0 := time.Now()
 		ctx, cancel, err := goat.VerifContextFromHeaders(context.Background(), &goatorepo.RequestHeader{Headers: kvs})
 		t1 := time.Now()
@@ -220,12 +230,18 @@ func c08Headers(r *Run) {
 			r.Count("headers.server.nodeadline")
 		}
 		cancel()
-		r.Case("hdrbetween", kvInput(kvs)+"|"+iv, out)
-		// a single well-formed header conveys a deadline, also when the time left is zero
-		if k == 1 && strings.EqualFold(kvs[0].Key, "grpc-timeout") && err == nil {
-			if _, wf := map[string]bool{"5S": true, "100m": true, "1H": true, "99999999H": true, "3u": true, "00000001n": true, "0S": true, "0n": true, "00000000H": true, "0m": true}[kvs[0].Value]; wf && out != "in" {
-				r.Violate("headers.server.nodeadline", "ops", "a well-formed grpc-timeout header did not give the handler's context a deadline", kvInput(kvs), out, "a deadline")
+		r.Case("hdrbetween", inp+"|"+iv, out)
+		// a well-formed timeout header conveys a deadline, also when the time left is zero and whatever
+		// other headers stand before or after it
+		nT, wfT := 0, false
+		for j := range keysOf {
+			if strings.EqualFold(keysOf[j], "grpc-timeout") {
+				nT++
+				_, wfT = map[string]bool{"5S": true, "100m": true, "1H": true, "99999999H": true, "3u": true, "00000001n": true, "0S": true, "0n": true, "00000000H": true, "0m": true}[valsOf[j]]
 			}
+		}
+		if nT == 1 && wfT && err == nil && out != "in" {
+			r.Violate("headers.server.nodeadline", "ops", "a well-formed grpc-timeout header did not give the handler's context a deadline", inp, out, "a deadline")
 		}
 	}
 }
@@ -240,17 +256,23 @@ func c08EndToEnd(r *Run) {
 		tSeen  time.Time
 		called bool
 	}
-	var o obs
+	// every call carries its number: a handler that runs late (its caller's deadline was so short that the
+	// caller gave up first) must not be taken for the handler of the next call
+	var omu sync.Mutex
+	seen := map[string]obs{}
+	record := func(ctx context.Context) {
+		now := time.Now()
+		dl, has := ctx.Deadline()
+		omu.Lock()
+		seen[mdGet(ctx, "x-call")] = obs{has: has, dl: dl, tSeen: now, called: true}
+		omu.Unlock()
+	}
 	rig.Impl.SetUnary(func(ctx context.Context, req []byte) ([]byte, error) {
-		o.tSeen = time.Now()
-		o.dl, o.has = ctx.Deadline()
-		o.called = true
+		record(ctx)
 		return req, nil
 	})
 	rig.Impl.SetStream(func(method string, ss grpc.ServerStream) error {
-		o.tSeen = time.Now()
-		o.dl, o.has = ss.Context().Deadline()
-		o.called = true
+		record(ss.Context())
 		return nil
 	})
 	n := r.Scale(60, 2000)
@@ -270,10 +292,10 @@ func c08EndToEnd(r *Run) {
 			rem = time.Duration(math.Pow(10, 6+rng.Float64()*10))
 		}
 		stream := i%2 == 1
-		o = obs{}
+		callNo := strconv.Itoa(i)
 		t0 := time.Now()
 		D := t0.Add(rem)
-		ctx, cancel := context.Background(), context.CancelFunc(func() {})
+		ctx, cancel := metadata.AppendToOutgoingContext(context.Background(), "x-call", callNo), context.CancelFunc(func() {})
 		if !noDeadline {
 			ctx, cancel = context.WithDeadline(ctx, D)
 		}
@@ -290,6 +312,9 @@ func c08EndToEnd(r *Run) {
 		}
 		cancel()
 		r.Eval(fmt.Sprintf("e2e/%v/%v/%d", noDeadline, stream, rem), true)
+		omu.Lock()
+		o := seen[callNo]
+		omu.Unlock()
 		if !o.called {
 			r.Count("e2e.not_delivered") // an expired caller may never reach the server
 			continue
